@@ -69,6 +69,10 @@ pub fn replay(_ctx: &Ctx, kind: &str, input: &Value) -> Result<Vec<Violation>, S
             let inp: c13::Input = serde_json::from_value(input.clone()).map_err(|e| e.to_string())?;
             Ok(c13::replay(&inp))
         }
+        "c13-edge" => {
+            let case: crate::scenario::Case = serde_json::from_value(input.clone()).map_err(|e| e.to_string())?;
+            Ok(c13::eval_edge(&case).0)
+        }
         "c15-input" => {
             let inp: c15::Input = serde_json::from_value(input.clone()).map_err(|e| e.to_string())?;
             Ok(c15::replay(&inp))
